@@ -45,11 +45,11 @@ ASSUMPTIONS = ['a coroutine the scenario itself never resumes is not a hang '
 REQUIRED = ['runs', 'close_points', 'cut_points', 'tracked_calls', 'tracked_failed',
             'callback_logs_checked', 'owner_lost_checked',
             'registered_channels_checked', 'intra_record_cuts',
-            'gated_cuts']
+            'gated_cuts', 'listener_runs']
 BUDGET_S = {'quick': 300, 'thorough': 3400}
 CASE_TIMEOUT_S = 120
 
-CH_KINDS = ['cb_session', 'process', 'run', 'tcp', 'sftp']
+CH_KINDS = ['cb_session', 'process', 'run', 'tcp', 'sftp', 'rforward']
 SRV = ['echo', 'exit_now', 'close_now', 'abort_now', 'hang', 'slow_open',
        'flood_exit', 'flood_eof_close', 'stall_eof_close', 'stall_close']
 CLI_ACTS = ['write', 'write_big', 'eof', 'close', 'abort', 'read',
@@ -91,6 +91,17 @@ def gen_cases(tier, seed):
                           'end_when': 'done', 'chunk': 'all',
                           'stride': 1 if tier == 'thorough' else 3,
                           'cseed': 13})
+    # directed: remote forwards and every way the connection can end
+    for ending in ('close_then_wait', 'peer_close', 'abort', 'none',
+                   'peer_disconnect'):
+        for acts in ([], ['settle'], ['close_wait']):
+            cases.append({'chans': [{'kind': 'rforward', 'srv': 'echo',
+                                     'acts': acts, 'window': None,
+                                     'pause': False}],
+                          'ending': ending, 'concurrent': True,
+                          'end_when': 'done', 'chunk': 'all',
+                          'stride': 1 if tier == 'thorough' else 3,
+                          'cseed': 14})
     # directed: drain() blocked by a peer that stopped reading, which then
     # sends EOF and/or closes
     for kind in ('process', 'tcp'):
@@ -219,6 +230,9 @@ class _Srv(apps.RecServer):
             return t
         return sess
 
+    def server_requested(self, listen_host, listen_port):
+        return True
+
     def connection_requested(self, dest_host, dest_port, orig_host,
                              orig_port):
         s = _TCPEcho(self.ctx['log'], 'tcp')
@@ -321,7 +335,7 @@ async def _client_channel(ctx, tr, conn, i, spec, rng):
     kind = spec['kind']
     if kind == 'sftp':
         ctx['next_srv'].append('sftp')
-    elif kind != 'tcp':
+    elif kind not in ('tcp', 'rforward'):
         ctx['next_srv'].append((spec['srv'], spec.get('window')))
     data = 'x' * 50
     big = 'y' * 70000
@@ -348,6 +362,22 @@ async def _client_channel(ctx, tr, conn, i, spec, rng):
                     await tr.call(f'sftp_wait_closed{i}', sftp.wait_closed())
                 elif a == 'eof':
                     await tr.call(f'sftp_stat{i}', sftp.stat('.'))
+            return
+        if kind == 'rforward':
+            # a remote (listening) forward: its close needs a global request
+            lst = await tr.call(f'forward_remote{i}', opener(
+                conn.forward_remote_port('127.0.0.1', 0, '127.0.0.1', 7)))
+            ctx.setdefault('listeners', []).append(lst)
+            for a in spec['acts']:
+                await asyncio.sleep(0)
+                if a in ('close', 'abort'):
+                    lst.close()
+                elif a in ('wait_closed', 'close_wait'):
+                    lst.close()
+                    await tr.call(f'listener_wait_closed{i}',
+                                  lst.wait_closed())
+                elif a == 'settle':
+                    await tr.env.settle()
             return
         if kind == 'tcp':
             r, w = await tr.call(f'open_connection{i}', opener(
@@ -591,6 +621,24 @@ def _run_once(case, cut, mon, viol, record_trace=None):
             for _ in range(4):
                 await asyncio.sleep(0)
                 await env.settle()
+
+            for k, lst in enumerate(ctx.get('listeners', [])):
+                tr.call(f'listener_wait_closed_after_end{k}',
+                        lst.wait_closed())
+            if conn is not None and ctx.get('listeners'):
+                async def late():
+                    try:
+                        await conn.forward_remote_port('127.0.0.1', 0,
+                                                       '127.0.0.1', 7)
+                    except (asyncssh.Error, asyncssh.ChannelListenError,
+                            OSError):
+                        pass
+                tr.call('forward_remote_after_end', late())
+            if ctx.get('listeners'):
+                mon['listener_runs'] += 1
+                for _ in range(3):
+                    await asyncio.sleep(0)
+                    await env.settle()
 
             mon['runs'] += 1
             if cut is not None and state['cut_done'] and \
